@@ -21,7 +21,10 @@ TECHNIQUE = "points-to/effect analysis for iterator invalidation + symbolic comp
 
 REACH = "reach_probability"
 ALIVE = simp(("cmp", "!=", SF(REACH), C(0)))
-ALIVE_ALT = (simp(("cmp", "<", C(0), SF(REACH))),)
+_ABS_REACH = simp(("call", "abs", (SF(REACH),), ()))
+ALIVE_ALT = (simp(("cmp", "<", C(0), SF(REACH))),
+             # `not abs(p) <= 0` / `abs(p) > 0` / `abs(p) != 0`: an absolute value is 0 exactly when the number is
+             simp(("cmp", "<", C(0), _ABS_REACH)), simp(("cmp", "!=", _ABS_REACH, C(0))), simp(("cmp", "!=", C(0), _ABS_REACH)))
 
 
 def r1(ctx, chk, rule="C03.1"):
